@@ -44,6 +44,9 @@ func formatSpace(c *engine.Check) engine.Space {
 		engine.D("form", engine.Pick(c, []string{"path:/device", "path:/ui/device verify", "url:https://ui.example/device"},
 			[]string{"path:/device", "path:/ui/device verify", "url:https://ui.example/device", "path:", "url:http://ui.example:8080/x/y"})...),
 		engine.D("issuer", "static", "host", "hostpath", "forwarded"),
+		// same: both requests of a case name the same host; two: the second request of the case reaches the same
+		// provider under another Host (a foreign one when the issuer is static): the URIs follow THAT request's issuer
+		engine.D("hosts", "same", "two"),
 		// fastest-varying last: one provider per configuration serves all router x client cases
 		engine.D("router", rig.Routers...),
 		engine.D("client", "web", "pub", "norefresh", "ghost"),
@@ -55,6 +58,7 @@ type fmtCfg struct {
 	amount, dash          int
 	lifetime, poll        time.Duration
 	formKind, formVal, is string
+	twoHosts              bool
 }
 
 func (k fmtCfg) rig() *rig.Rig {
@@ -80,17 +84,24 @@ func (k fmtCfg) rig() *rig.Rig {
 }
 
 // issuerHost is the host the provider's issuer has for the requests built by daRequest.
-func issuerHost(is string) string {
+func issuerHost(is string, alt bool) string {
 	switch is {
 	case "host", "hostpath":
+		if alt {
+			return "dyn2.example:8443"
+		}
 		return "dyn.example"
 	case "forwarded":
+		if alt {
+			return "fwd2.example"
+		}
 		return "fwd.example"
 	}
-	return rig.Host
+	return rig.Host // static issuer: whatever the request says
 }
 
-func daRequest(r *rig.Rig, client, is string) *http.Request {
+// daRequest builds a device authorization request; alt selects the second Host value.
+func daRequest(r *rig.Rig, client, is string, alt bool) *http.Request {
 	form := url.Values{"scope": {"openid"}}
 	auth := ""
 	if client == "ghost" {
@@ -101,10 +112,18 @@ func daRequest(r *rig.Rig, client, is string) *http.Request {
 	req := rig.Req("POST", "/device_authorization", form, hdr(auth))
 	switch is {
 	case "host", "hostpath":
-		req.Host = "dyn.example"
+		req.Host = issuerHost(is, alt)
 	case "forwarded":
 		req.Host = "proxy.internal"
-		req.Header.Set("Forwarded", "for=192.0.2.1;host=fwd.example;proto=https")
+		if alt {
+			req.Host = "proxy2.internal:8080"
+		}
+		req.Header.Set("Forwarded", "for=192.0.2.1;host="+issuerHost(is, alt)+";proto=https")
+	default:
+		if alt {
+			req.Host = "elsewhere.example" // a static issuer does not follow the request
+			req.Header.Set("Forwarded", "host=elsewhere.example")
+		}
 	}
 	return req
 }
@@ -152,14 +171,16 @@ func runFormat(c *engine.Check) {
 				life, _ := time.ParseDuration(get("lifetime"))
 				poll, _ := time.ParseDuration(get("poll"))
 				fk, fv, _ := strings.Cut(get("form"), ":")
-				k := fmtCfg{charset: get("charset"), amount: atoi(get("amount")), dash: atoi(get("dash")), lifetime: life, poll: poll, formKind: fk, formVal: fv, is: get("issuer")}
-				r, ok := rigs[k]
+				k := fmtCfg{charset: get("charset"), amount: atoi(get("amount")), dash: atoi(get("dash")), lifetime: life, poll: poll, formKind: fk, formVal: fv, is: get("issuer"), twoHosts: get("hosts") == "two"}
+				rk := k
+				rk.twoHosts = false // one provider serves both host patterns
+				r, ok := rigs[rk]
 				if !ok {
 					if len(rigs) > 256 {
 						clear(rigs)
 					}
 					r = k.rig()
-					rigs[k] = r
+					rigs[rk] = r
 				}
 				var res engine.Result
 				if pan := engine.Bubble(c.T, time.Hour, func() { res = formatCase(r, router, client, k) }); pan != "" {
@@ -182,7 +203,8 @@ func formatCase(r *rig.Rig, router int, client string, k fmtCfg) engine.Result {
 	for i := range got {
 		st := refstore.NewState() // fresh store per request: small user-code spaces cannot collide
 		r.Core.Reset(st)
-		resp := r.Do(router, daRequest(r, client, k.is))
+		alt := k.twoHosts && i == 1
+		resp := r.Do(router, daRequest(r, client, k.is, alt))
 		o := obs(resp)
 		if client == "norefresh" || client == "ghost" {
 			rule, class := "da-client-without-device-grant", "nogrant"
@@ -235,8 +257,12 @@ func formatCase(r *rig.Rig, router int, client string, k fmtCfg) engine.Result {
 			if want, _ := url.Parse(k.formVal); u.String() != want.String() {
 				return bad("verification-uri", "/form-url", fmt.Sprintf("verification_uri %q, configured UserFormURL %q", vu, k.formVal))
 			}
-		} else if u.Scheme != "https" || u.Host != issuerHost(k.is) || u.Path != k.formVal || u.RawQuery != "" || u.Fragment != "" {
-			return bad("verification-uri", "/form-path", fmt.Sprintf("verification_uri %q is not https://%s + %q", vu, issuerHost(k.is), k.formVal))
+		} else if u.Scheme != "https" || u.Host != issuerHost(k.is, alt) || u.Path != k.formVal || u.RawQuery != "" || u.Fragment != "" {
+			class := "/form-path"
+			if alt {
+				class = "/form-path-second-host" // right for the first host of the case, not for the host of this request
+			}
+			return bad("verification-uri", class, fmt.Sprintf("verification_uri %q is not https://%s + %q (issuer of this request)", vu, issuerHost(k.is, alt), k.formVal))
 		}
 		uc2, err := url.Parse(vc)
 		if err != nil || vc == "" {
@@ -308,7 +334,7 @@ func runSeeds(c *engine.Check) {
 					if pan := engine.Bubble(c.T, 0, func() {
 						for i := range out {
 							r.Core.Reset(refstore.NewState()) // fresh store: equal user codes are observed, not refused as duplicates
-							resp := r.Do(router, daRequest(r, client, "static"))
+							resp := r.Do(router, daRequest(r, client, "static", false))
 							if o = obs(resp); o != "devauth" {
 								return
 							}
